@@ -3,7 +3,7 @@
 // are mapped over the originals with `go build -overlay`; /repo is never written.
 //
 // Rules (syntactic, import-aware):
-//   net.Listen|ListenUDP|ListenPacket|Dial|DialTimeout|LookupIP  -> simnet.<same>
+//   net.Listen|ListenUDP|ListenPacket|Dial|DialTimeout|LookupIP|ResolveUDPAddr|ResolveTCPAddr -> simnet.<same>
 //   type net.Dialer                                                -> simnet.Dialer
 //   tls.Dial                                                       -> simnet.TLSDial
 //   gorilla websocket.Dialer{...} literals gain NetDialContext: simnet.DialContext
@@ -27,7 +27,7 @@ import (
 
 const simnetPath = "github.com/andydunstall/piko/verifsim/simnet"
 
-var netFuncs = map[string]bool{"Listen": true, "ListenUDP": true, "ListenPacket": true, "Dial": true, "DialTimeout": true, "LookupIP": true}
+var netFuncs = map[string]bool{"Listen": true, "ListenUDP": true, "ListenPacket": true, "Dial": true, "DialTimeout": true, "LookupIP": true, "ResolveUDPAddr": true, "ResolveTCPAddr": true}
 
 func main() {
 	repo, out := os.Args[1], os.Args[2]
